@@ -32,6 +32,7 @@ type snapper struct {
 }
 
 var timeType = reflect.TypeOf(time.Time{})
+var valueType = reflect.TypeOf(reflect.Value{})
 
 // clearRO removes reflect's read-only flag (set on values reached through
 // unexported fields) so that Interface() can be used on them. The snapshot only
@@ -65,6 +66,20 @@ func (s *snapper) val(v reflect.Value, depth int) {
 		return
 	}
 	v = clearRO(v)
+	if v.Type() == valueType {
+		// a reflect.Value held by the object (Wrapper.val): snapshot what it refers to
+		inner := v.Interface().(reflect.Value)
+		s.b.WriteString("reflect.Value:")
+		if inner.IsValid() && inner.CanAddr() {
+			id, first := s.ref(inner.UnsafeAddr())
+			fmt.Fprintf(&s.b, "@#%d", id)
+			if !first {
+				return
+			}
+		}
+		s.val(inner, depth+1)
+		return
+	}
 	if v.Type() == timeType {
 		t := v.Interface().(time.Time)
 		_, off := t.Zone()
